@@ -12,6 +12,7 @@
 package main
 
 import (
+	"crypto/tls"
 	"encoding/json"
 	"fmt"
 	"strings"
@@ -25,6 +26,7 @@ import (
 	"github.com/bluenviron/gortsplib/v5/pkg/base"
 	"github.com/bluenviron/gortsplib/v5/pkg/description"
 	"github.com/bluenviron/gortsplib/v5/pkg/format"
+	"github.com/bluenviron/gortsplib/v5/pkg/headers"
 
 	"verif/internal/evid"
 	"verif/internal/sysx"
@@ -61,6 +63,7 @@ type world struct {
 	mu       sync.Mutex
 	postLog  []string
 	protoUDP bool
+	variant  string
 }
 
 type step struct {
@@ -76,6 +79,13 @@ func (w *world) newClient(second bool) *gortsplib.Client {
 	c := w.env.NewClient(func(c *gortsplib.Client) {
 		c.Protocol = &proto
 		c.WriteQueueSize = 8
+		switch w.variant {
+		case "ws":
+			c.Tunnel = gortsplib.TunnelWebSocket
+		case "tls":
+			c.Scheme = "rtsps"
+			c.TLSConfig = &tls.Config{InsecureSkipVerify: true}
+		}
 	})
 	return c
 }
@@ -86,11 +96,18 @@ func pkt(seq uint16) *rtp.Packet {
 
 var u = sysx.MustURL("rtsp://127.0.0.1:8554/stream")
 
+func (w *world) url() *base.URL {
+	if w.variant == "tls" {
+		return sysx.MustURL("rtsps://127.0.0.1:8554/stream")
+	}
+	return u
+}
+
 func playSteps() []step {
 	return []step{
 		{"client-start", func(w *world) error { w.cli = w.newClient(false); return w.cli.Start() }},
 		{"describe", func(w *world) error {
-			d, _, err := w.cli.Describe(u)
+			d, _, err := w.cli.Describe(w.url())
 			if err == nil {
 				w.desc, w.baseURL, w.medias = d, d.BaseURL, d.Medias
 			}
@@ -140,10 +157,15 @@ func recordSteps() []step {
 		{"client-start", func(w *world) error { w.cli = w.newClient(false); return w.cli.Start() }},
 		{"announce", func(w *world) error {
 			w.desc = sysx.DefaultDesc(1)
-			_, err := w.cli.Announce(u, w.desc)
+			if w.variant == "tls" {
+				for _, m := range w.desc.Medias {
+					m.Profile = headers.TransportProfileSAVP
+				}
+			}
+			_, err := w.cli.Announce(w.url(), w.desc)
 			return err
 		}},
-		{"setup", func(w *world) error { return w.cli.SetupAll(u, w.desc.Medias) }},
+		{"setup", func(w *world) error { return w.cli.SetupAll(w.url(), w.desc.Medias) }},
 		{"record", func(w *world) error { _, err := w.cli.Record(); return err }},
 		{"client-write-1", func(w *world) error { w.seq++; return w.cli.WritePacketRTP(w.desc.Medias[0], pkt(w.seq)) }},
 		{"client-write-2", func(w *world) error { w.seq++; return w.cli.WritePacketRTP(w.desc.Medias[0], pkt(w.seq)) }},
@@ -237,16 +259,23 @@ type scenario struct {
 	udp     bool
 	steps   []step
 	closers []string
+	variant string // "" | ws (WebSocket tunnel) | tls (rtsps, SRTP)
 }
 
 func scenarios() []scenario {
 	return []scenario{
-		{"play-tcp", false, playSteps(), []string{"server", "stream", "client"}},
-		{"play-udp", true, playSteps(), []string{"server", "stream", "client"}},
-		{"record-tcp", false, recordSteps(), []string{"server", "client"}},
-		{"record-udp", true, recordSteps(), []string{"server", "client"}},
-		{"two-readers-tcp", false, twoReaderSteps(), []string{"server", "stream", "client"}},
-		{"stalled-reader-tcp", false, stalledSteps(), []string{"server", "stream"}},
+		{"play-tcp", false, playSteps(), []string{"server", "stream", "client"}, ""},
+		{"play-udp", true, playSteps(), []string{"server", "stream", "client"}, ""},
+		{"record-tcp", false, recordSteps(), []string{"server", "client"}, ""},
+		{"record-udp", true, recordSteps(), []string{"server", "client"}, ""},
+		{"two-readers-tcp", false, twoReaderSteps(), []string{"server", "stream", "client"}, ""},
+		{"stalled-reader-tcp", false, stalledSteps(), []string{"server", "stream"}, ""},
+		// further carriers of the control connection: WebSocket tunnel, TLS (+SRTP, media over TCP and UDP)
+		{"play-ws-tunnel", false, playSteps(), []string{"server", "stream", "client"}, "ws"},
+		{"record-ws-tunnel", false, recordSteps(), []string{"server", "client"}, "ws"},
+		{"play-tcp-tls", false, playSteps(), []string{"server", "stream", "client"}, "tls"},
+		{"play-udp-tls", true, playSteps(), []string{"server", "stream", "client"}, "tls"},
+		{"record-tcp-tls", false, recordSteps(), []string{"server", "client"}, "tls"},
 	}
 }
 
@@ -291,12 +320,15 @@ func runCase(c Case) (f *fail) {
 		}
 	}
 	env := sysx.NewEnv()
-	w := &world{env: env, protoUDP: sc.udp}
+	w := &world{env: env, protoUDP: sc.udp, variant: sc.variant}
 	srv, app, err := env.StartServer(sysx.ServerOpts{Handlers: "all", UDP: true, Desc: sysx.DefaultDesc(1), Tweak: func(s *gortsplib.Server) {
 		s.WriteQueueSize = 8
 		s.WriteTimeout = 5 * time.Second
 		s.ReadTimeout = 5 * time.Second
 		s.IdleTimeout = 20 * time.Second
+		if sc.variant == "tls" {
+			s.TLSConfig = serverTLSConfig()
+		}
 	}})
 	if err != nil {
 		return &fail{"harness/server-start", err.Error()}
@@ -463,7 +495,7 @@ func main() {
 		})
 	}
 	run := evid.New("C13", "model_checking")
-	run.Rule("whole system: case = (scenario in {play-tcp, play-udp, record-tcp, record-udp, two-readers-tcp, stalled-reader-tcp}, step index k = 0..len(steps), closer in {Server.Close, ServerStream.Close, Client.Close}, order in {after step k-1 completed, concurrently with step k}); all combinations; plus handler-gated in-flight cases {record, play} x {udp, tcp} x closer {TEARDOWN, Server.Close, connection drop + timeout | Client.Close, Server.Close, ServerStream.Close}: the harness holds a packet callback open, starts the closer, lets the library run to quiescence, releases the callback; plus Client.Close against a scripted server that keeps sending unsolicited {responses, requests}: the client's routine is held in its hook, the reader is parked with the next message and a backlog of 64 behind it, Close starts, the hook is released (8 trials each - the runtime's choice between the two ready channels is not controlled); cores: every interleaving (preemption bound <=2 quick / <=3 thorough) of the lifecycle drivers of rtpsender.Sender, rtpreceiver.Receiver and the async processor under the controlled scheduler. states = distinct (scenario, k, closer, order) situations + distinct core histories; transitions = protocol steps and scheduling points executed; every trace runs on the implementation. non-trivial = k >= 1")
+	run.Rule("whole system: case = (scenario in {play-tcp, play-udp, record-tcp, record-udp, two-readers-tcp, stalled-reader-tcp, play/record over the WebSocket tunnel, play-tcp / play-udp / record-tcp over rtsps with SRTP}, step index k = 0..len(steps), closer in {Server.Close, ServerStream.Close, Client.Close}, order in {after step k-1 completed, concurrently with step k}); all combinations; plus handler-gated in-flight cases {record, play} x {udp, tcp} x closer {TEARDOWN, Server.Close, connection drop + timeout | Client.Close, Server.Close, ServerStream.Close}: the harness holds a packet callback open, starts the closer, lets the library run to quiescence, releases the callback; plus Client.Close against a scripted server that keeps sending unsolicited {responses, requests}: the client's routine is held in its hook, the reader is parked with the next message and a backlog of 64 behind it, Close starts, the hook is released (8 trials each - the runtime's choice between the two ready channels is not controlled); cores: every interleaving (preemption bound <=2 quick / <=3 thorough) of the lifecycle drivers of rtpsender.Sender, rtpreceiver.Receiver and the async processor under the controlled scheduler. states = distinct (scenario, k, closer, order) situations + distinct core histories; transitions = protocol steps and scheduling points executed; every trace runs on the implementation. non-trivial = k >= 1")
 	run.Assume("wall-clock is only the hang detector; virtual time is advanced by up to 150 s at quiescence while a call is pending")
 	run.Assume("the whole-system part runs free (Go scheduler decides the interleaving of the racing order); exhaustive interleaving exploration is limited to the component cores")
 
